@@ -21,6 +21,8 @@ def main():
     else:
         passes = [{"harness": "c16", "cfg": {"capacities": "3", "maxlen": "4"}, "budget_s": 850, "label": "capacity in {1,2,3} x all outcome sequences of length <=4 over 10 " + P + ": " + U}]
         total = 900
+    passes.insert(0, {"harness": "c16-load", "cfg": {}, "budget_s": 20, "label": "capacity 16 with 7/8/9/15 slots held by served clients, 1/2/8 of which leave at 0/3/5/7/12 s, while the proxy keeps polling a broker without clients (the same pollOffer call polls every 5 s): every reported load is a multiple of 8 not above the slots in use since the previous poll: " + U})
+    total += 20
     summary, tot, samples, exh = sched.run_passes(rep, binary, passes, total)
     sched.sched_coverage(rep, summary, tot, samples, exh)
     rep.assumptions += [
